@@ -130,6 +130,9 @@ def _run(self):
     _gate(self, 'started')
     _talk(self)
     if self.beh == 'raise':
+        if self.label % 4 == 3:
+            # a task that gives up by calling sys.exit(): a failed task like any other
+            raise SystemExit(f'exit {self.label}')
         # explicitly chained: what run_tasks reports must be the task's own exception, not the one it was raised from
         raise ValueError(f'boom {self.label}') from KeyError(f'inner {self.label}')
     faildir = os.environ.get('LV_FAILDIR')
